@@ -58,6 +58,9 @@ use std::cell::RefCell;
 use std::mem::replace;
 use std::mem::take;
 use std::ops::Range;
+#[cfg(wild_verif)]
+use simrt::sync::Mutex;
+#[cfg(not(wild_verif))]
 use std::sync::Mutex;
 use std::sync::atomic::AtomicUsize;
 use std::sync::atomic::Ordering;
